@@ -251,6 +251,10 @@ pub struct RunScript {
     /// arguments of the world's `log tail` listener (needed to start it again for LAction::Restart)
     #[serde(default)]
     pub listener_args: Vec<String>,
+    /// the run is started the way a recipe of `make -j2` would start it: MAKEFLAGS names a jobserver fifo that
+    /// holds one token (an environment the tool has no business reacting to)
+    #[serde(default)]
+    pub make_jobserver: bool,
 }
 
 fn port_listening(port: u16) -> bool {
@@ -316,6 +320,7 @@ impl RunScript {
             nofile: None,
             quiesce_before_failures: false,
             listener_args: vec![],
+            make_jobserver: false,
         }
     }
     pub fn behav_for(&self, command: &str, target: &str) -> Option<&Behav> {
@@ -439,6 +444,22 @@ pub fn drive_run_l(w: &mut World, actor: &str, sc: &RunScript, hang: Duration, l
     if let Some(s) = sc.rand_seed {
         env.push(("LD_PRELOAD".into(), crate::world::shim_path().to_string_lossy().into_owned()));
         env.push(("FSFAULT_RANDSEED".into(), s.to_string()));
+    }
+    let mut _jobserver: Option<std::fs::File> = None;
+    if sc.make_jobserver {
+        let fifo = w.root.join(".ctl/jobserver");
+        let _ = std::fs::remove_file(&fifo);
+        if let Ok(c) = std::ffi::CString::new(fifo.as_os_str().as_bytes()) {
+            if unsafe { libc::mkfifo(c.as_ptr(), 0o600) } == 0 {
+                if let Ok(mut f) = std::fs::OpenOptions::new().read(true).write(true).open(&fifo) {
+                    use std::io::Write;
+                    let _ = f.write_all(b"+");
+                    _jobserver = Some(f);
+                    env.push(("MAKEFLAGS".into(), format!(" -j2 --jobserver-auth=fifo:{}", fifo.display())));
+                    env.push(("MAKELEVEL".into(), "1".into()));
+                }
+            }
+        }
     }
     if let Some(st) = &sc.fs_write_stall {
         env.push(("LD_PRELOAD".into(), crate::world::shim_path().to_string_lossy().into_owned()));
